@@ -3,7 +3,7 @@
     0xA8 and the sequences section; or a zero sequence count.  Plus the inverse direction used by the correspondence
     check: take a real block apart with the decoder model and write it again with this model. *)
 Require Import Zrs.lib.RsPrelude Zrs.gen.Generated Zrs.model.Headers Zrs.model.BitIO Zrs.model.FseDec Zrs.model.HufDec Zrs.model.BlockDec.
-Require Import Zrs.model.BitStream Zrs.model.SeqEnc Zrs.model.FseEnc Zrs.model.SeqSection Zrs.model.Matcher Zrs.model.LitEnc.
+Require Import Zrs.model.BitStream Zrs.model.SeqEnc Zrs.model.FseEnc Zrs.model.SeqSection Zrs.model.Matcher Zrs.model.LitEnc Zrs.model.SeqNorm.
 Open Scope Z_scope.
 
 (** what [compress_block] makes of the match finder's sequences: one literal buffer, and (literal length, match length,
@@ -83,6 +83,10 @@ Definition huf_side_b (t : huf_table) (code : Z -> hcode) (lits : list Z) : bool
   forallb (fun s => code_ok_b mn code s && resolves_b t mn code s) (nodup Z.eq_dec lits) &&
   (zlen (hstream code a) <? 65536) && (zlen (hstream code b) <? 65536) && (zlen (hstream code c) <? 65536).
 
+Definition dist_eqb (a b : dist) : bool := (fst a =? fst b) && (if list_eq_dec Z.eq_dec (snd a) (snd b) then true else false).
+Definition dists_eqb (a b : dist * dist * dist) : bool :=
+  let '(a1, a2, a3) := a in let '(b1, b2, b3) := b in dist_eqb a1 b1 && dist_eqb a2 b2 && dist_eqb a3 b3.
+
 (** any compressed block of the compressor (raw or Huffman-coded literals; all sequence tables FSE-coded): taken apart
     with the decoder model from the Huffman table [ht] the decoder holds, and written again with the encoder models.
     Returns the decoder's new Huffman table, whether the side conditions of the block theorems hold, and the bytes *)
@@ -98,7 +102,7 @@ Definition rewrite_block (ht : huf_table) (body : list Z) : res (huf_table * boo
      else
        let* (s2, seqs) := decode_sequences nseq modes (drop_z used_seq rest) fse_scratch_new in
        let dl := dist_of (fs_ll s2) in let do := dist_of (fs_of s2) in let dm := dist_of (fs_ml s2) in
-       ROk (section_hyps_b dl do dm seqs, dl, do, dm, seqs)) in
+       ROk (section_hyps_b dl do dm seqs && dists_eqb (norm_model seqs) (dl, do, dm), dl, do, dm, seqs)) in
   let* sp := seq_part dl do dm seqs in
   if ty =? 0 then ROk (ht', hs, raw_lit_header (zlen lits) ++ lits ++ sp)
   else if (ty =? 2) || (ty =? 3) then
